@@ -277,16 +277,27 @@ def run_parse(r: Run, prop):
     keys = table_keys()
     wf = well_formed_cases(r, keys)
     mal = malformed_cases(r, wf) if prop in ("C05",) else malformed_cases(r, wf)[:: 7] + gap_isotopes(keys)[:: 5]
-    cases = [(s, True) for s in wf] + [(s, False) for s in mal]
-    lines = [f"parse\t{cps(s)}" for s, _ in cases]
+    cases = [(s, True, None) for s in wf] + [(s, False, None) for s in mal]
+    # caller-supplied tables (parse_formula_with_table / parse_with / the helper): sub-tables of the built-in one.
+    # A symbol the supplied table lacks is unknown wherever it stands — at top level, inside groups, nested.
+    rng = random.Random(r.seed + 5)
+    grouped = ["(Na)2O", "H2(SO4)", "(C(Cl)3)2", "C(Na)", "(H)2Na", "Na(H)2", "((Na))", "H(O(S))", "NaCl", "Cl", "(Cl)",
+               "(C2H5)2O", "C[13](H)2", "(C[13])2", "(Cl[37])2", "H+", "(H+)2", "O(H+)", "(Uuh)", "CH4(N2)3(S)", "(((S)))2"]
+    for sub in ("C,H,N,O", "H", "C,Cl,Na", "-", "O,S,H+,Uuh", "C,H,N,O,S,P,Na,K,Cl"):
+        pool = grouped + rng.sample(wf, min(len(wf), 60 if r.tier == "thorough" else 25)) + rng.sample(mal, min(len(mal), 40))
+        cases += [(t, False, sub) for t in pool if len(t) < 300]
+
+    def line_of(t, sub):
+        return f"parse\t{cps(t)}" if sub is None else f"parsewith\t{sub}\t{cps(t)}"
+    lines = [line_of(s, sub) for s, _, sub in cases]
     impl = r.impl("formula", lines, timeout=2400)
     model = r.model("formula", lines, timeout=2400)
     corr_ok = True
     verdict_hist = {}
     seen = set()
-    for (s, is_wf), il, dl in zip(cases, impl, model):
+    for (s, is_wf, sub), il, dl in zip(cases, impl, model):
         verdict = dl.split("\t")[-1].split(" ")[0]
-        cls = ("wf" if is_wf else "mal", il.split(" ")[0], verdict, shape(s) if len(s) <= 5 else min(len(s), 40) // 8)
+        cls = ("wf" if is_wf else "mal", il.split(" ")[0], verdict, shape(s) if len(s) <= 5 else min(len(s), 40) // 8, sub)
         r.case(cls, {"string": s[:80], "impl": il[:120], "spec": dl.split("\t")[-1][:120]})
         verdict_hist[(il.split(" ")[0], verdict)] = verdict_hist.get((il.split(" ")[0], verdict), 0) + 1
         if is_wf and verdict != "accept" and len(s) < 3000:
@@ -311,17 +322,21 @@ def run_parse(r: Run, prop):
             continue
         seen.add((clause, shape(s)))
 
-        def still(t, clause=clause, p=p):
-            a = r.impl("formula", [f"parse\t{cps(t)}"])[0]
-            b = r.model("formula", [f"parse\t{cps(t)}"])[0]
+        def still(t, clause=clause, p=p, sub=sub):
+            a = r.impl("formula", [line_of(t, sub)])[0]
+            b = r.model("formula", [line_of(t, sub)])[0]
             jj = judge_parse(prop, False, a, b)
             return jj is not None and jj[1] == clause
         s2 = shrink_string(r, s, still) if len(s) <= 200 else s
-        a = r.impl("formula", [f"parse\t{cps(s2)}"])[0]
-        b = r.model("formula", [f"parse\t{cps(s2)}"])[0]
+        a = r.impl("formula", [line_of(s2, sub)])[0]
+        b = r.model("formula", [line_of(s2, sub)])[0]
         jj = judge_parse(prop, False, a, b) or j
-        r.violation(clause, {"shape": shape(s2)}, f"parsing {s2[:80]!r}: {jj[2]}", expected=b.split("\t")[-1][:300],
-                    observed={"lines": [f"parse\t{cps(s2)}"], "string": s2[:200], "impl": a[:300]}, model=b.split("\t")[0][:300], kind=kind)
+        wit = {"shape": shape(s2)}
+        if sub is not None:
+            wit["table"] = sub
+        r.violation(clause, wit, f"parsing {s2[:80]!r}" + (f" with a table holding only {{{sub}}}" if sub is not None else "") + f": {jj[2]}",
+                    expected=b.split("\t")[-1][:300],
+                    observed={"lines": [line_of(s2, sub)], "string": s2[:200], "impl": a[:300]}, model=b.split("\t")[0][:300], kind=kind)
     r.coverage["outcome_x_verdict"] = {f"{k[0]}/{k[1]}": v for k, v in sorted(verdict_hist.items())}
     r.coverage["strings"] = dict(well_formed=len(wf), malformed=len(mal))
     r.oblige(f"correspondence: all parsing entry points agree with the model and the grammar oracle ({prop} observables)", "corr", corr_ok)
